@@ -165,7 +165,7 @@ def action_text(act, aid, n):
         return " << vh.MkX(C, %d, X) >>" % aid
     if act == 6:
         # the action text contains printf verbs: it must reach the generated file verbatim
-        return " << vh.Pct(C, %d, \"%%s|%%d|%%%%|%%v|%%!\", %s) >>" % (aid, L)
+        return " << vh.Pct(C, %d, \"%%s|%%d|%%%%|%%v|%%!|two  blanks\", %s) >>" % (aid, L)
     raise ValueError(act)
 
 
@@ -357,6 +357,29 @@ def rand_syn(rng, terms, nnt=None, max_alts=3, max_len=3, p_empty=0.2, p_error=0
         syn[0] = (first[0], list(first[1]) + [(0, lst)] + ([x] if rng.random() < 0.5 else []), first[2] if first[2] in (0, 1, 5, 6) else 0, first[3] if first[2] in (0, 1, 5, 6) else 0)
         syn.append((lst, [(0, lst), y], 0, 0))
         syn.append((lst, [(1, "empty")], 0, 0))
+    if productive and acts and rng.random() < 0.2 and len(terms) >= 2:
+        # an optional part whose EMPTY alternative has an action of its own, used twice in one sentence:
+        # the action must run once per occurrence (`S0 : ... O9 x O9`)
+        x, y = rng.sample(terms, 2)
+        aid += 2
+        first = syn[0]
+        keep = first[2] in (0, 1, 5, 6, 8)
+        syn[0] = (first[0], list(first[1]) + [(0, "O9"), x, (0, "O9")], first[2] if keep else 0, first[3] if keep else 0)
+        syn.append(("O9", [(1, "empty")], rng.choice([1, 5, 8]), aid - 1))
+        syn.append(("O9", [y], 1, aid))
+    if productive and rng.random() < 0.08 and len(terms) >= 2:
+        # many productions and a long first alternative that ends in a non-terminal whose first production is number 11:
+        # production and dot numbers with two digits (`S0 : t t t t t t t t t t Z9 ; (nine more productions) ; Z9 : u | v`)
+        u, v = rng.sample(terms, 2)
+        start = syn[0][0]
+        syn.insert(0, (start, [rng.choice(terms) for _ in range(10)] + [(0, "Z9")], 0, 0))
+        pad = 0
+        while len(syn) < 10:
+            pad += 1
+            syn.append(("P9%d" % pad, [rng.choice(terms)] * pad + [rng.choice(terms)], 0, 0))
+            syn.insert(1, (start, [(0, "P9%d" % pad)], 0, 0))
+        z = [("Z9", [u], 0, 0), ("Z9", [v], 0, 0)] + ([("Z9", [u, v], 0, 0)] if rng.random() < 0.5 else [])
+        syn[10:10] = z
     if len(syn) > 2 and rng.random() < 0.2:
         # declare a non-terminal in two separate places: `A : x ; B : y ; A : z ;`
         k = rng.randrange(1, len(syn))
@@ -402,12 +425,24 @@ def conflict_rich_syn(rng, terms):
         # dangling else with extra ambiguity
         syn = [("S0", [a, (0, "S0")]), ("S0", [a, (0, "S0"), b, (0, "S0")]), ("S0", [c]), ("S0", [(0, "S0"), b])]
         rng.shuffle(syn)
-    elif k < 0.86:
+    elif k < 0.85:
         # the start symbol derives itself: accept/reduce clash, must be refused in both modes
         syn = rng.choice([[("S0", [(0, "S0")]), ("S0", [a])],
                           [("S0", [(0, "N1")]), ("S0", [a]), ("N1", [(0, "S0")])],
                           [("S0", [a, b]), ("S0", [(0, "N1")]), ("N1", [(0, "N2")]), ("N2", [(0, "S0")]), ("N2", [c])]])
-    elif k < 0.93:
+    elif k < 0.9:
+        # reduce/reduce between an early and a late production of a grammar with more than ten productions
+        # (production numbers with one and with two digits compete)
+        npad = rng.randint(6, 9)
+        syn = [("S0", [(0, "N1"), b]), ("S0", [(0, "N2"), b]), ("N1", [a])]
+        for i in range(1, npad + 1):
+            syn.append(("S0", [(0, "P%d" % i)]))
+        for i in range(1, npad + 1):
+            syn.append(("P%d" % i, [c] * i + [b]))
+        syn.append(("N2", [a]))
+        if rng.random() < 0.5:
+            syn[2], syn[-1] = ("N2", [a]), ("N1", [a])
+    elif k < 0.95:
         # a nullable non-terminal followed by a non-nullable symbol (exact FIRST/look-ahead sets matter)
         syn = [("S0", [(0, "N1"), c]), ("N1", [(0, "N2"), (0, "N3"), b]), ("N3", [(1, "empty")]), ("N3", [a]), ("N2", [a]), ("N2", [a, c])]
         if rng.random() < 0.5:
